@@ -43,10 +43,12 @@ def sup_large(rep, rng, tier, what):
 
     for r_ in range(reps):
         if "forest" in what or "prototypes" in what:
-            for vi, metric in enumerate([rng.choice(BIG_METRICS[:3]), rng.choice(BIG_METRICS[3:]), rng.choice(BIG_METRICS[:3])]):
-                n = rng.choice([65, 70, 90, 129, 150]) if vi < 2 else rng.choice([100, 140, 200])
-                dim = rng.choice([33, 36, 48, 64, 65]) if vi < 2 else rng.choice([2, 3])
-                it = big_instance(rng, n, 0, 0, metric, dim, classes=rng.choice([2, 3, 9]) if vi < 2 else rng.choice([2, 3]), blobs=(vi != 1))
+            ratio = rng.sample(BIG_METRICS[3:], 2)
+            for vi, metric in enumerate([rng.choice(BIG_METRICS[:3]), ratio[0], rng.choice(BIG_METRICS[:3]), ratio[1]]):
+                lowdim = vi == 2
+                n = rng.choice([100, 140, 200]) if lowdim else rng.choice([65, 70, 90, 129, 150])
+                dim = rng.choice([2, 3]) if lowdim else rng.choice([33, 36, 48, 64, 65])
+                it = big_instance(rng, n, 0, 0, metric, dim, classes=rng.choice([2, 3]) if lowdim else rng.choice([2, 3, 9]), blobs=(vi != 1))
                 if any(v != v for row in it.D for v in row):
                     continue
                 try:
